@@ -22,9 +22,9 @@ def run(ctx):
     ctx.assumptions += ['IncomingVoter and DemotingVoter both count as voters while the region is in the joint state',
                         'the property speaks about operators that are produced: a refusal by the builder is recorded, not judged',
                         'final peers are compared by store and role (the builder allocates new peer ids)']
-    seeds = [ctx.seed] if q else [ctx.seed + k for k in range(4)]
+    seeds = [ctx.seed] if q else [ctx.seed + k for k in range(6)]
     for sd in seeds:
-        for stores, cases in ((5, 3000 if q else 12000), (6, 600 if q else 4000)):
+        for stores, cases in ((5, 3000 if q else 40000), (6, 600 if q else 15000)):
             tr = os.path.join(ctx.dir, 'build_%d_%d.ndjson' % (sd, stores))
             vlib.run_harness(['operator', 'build', 'out=' + tr, 'seed=%d' % (sd * 10 + stores), 'cases=%d' % cases, 'stores=%d' % stores])
             bad, evs = ctx.monitor_all('operator', 'Steps', 'Steps.cfg', tr, 'build_%d_%d' % (sd, stores), timeout=6000)
